@@ -3362,6 +3362,10 @@ class Session(object):
                         self._lock.acquire()
                         return False
                     self._lock.acquire()
+                if self.is_shutdown:
+                    # shutdown() already went over self._pools; nobody else would close this pool
+                    new_pool.shutdown()
+                    return False
                 self._pools[host] = new_pool
 
             log.debug("Added pool for host %s to session", host)
